@@ -66,7 +66,7 @@ func edAbsStepLine(work bool, start *edDirs, ops []edOp) string {
 
 // edEmitModelOps: which op lines are sent to the Lean driver (and compared).
 var edEmitAbs = true
-var edEmitSession = false
+var edEmitSession = true
 
 func edGenCommon(g *Gen, n int, salt int) {
 	for i := 0; i < salt; i++ {
